@@ -139,7 +139,7 @@ def main(tier, seed):
         return res.finish()
     wroot = os.path.join(bdir, "verif-work", "c02-%d" % os.getpid())
     os.makedirs(wroot, exist_ok=True)
-    nsch = 5 if tier == "quick" else 200
+    nsch = 8 if tier == "quick" else 200
     evals = 0
     oracle_fail = 0
     nontrivial = 0
